@@ -63,6 +63,10 @@ fn hmap(doc: &MVal) -> Option<HashMap<String, HVal>> {
 }
 
 /// Verdict through typed std containers when the (flat) document fits one; the label says which.
+fn k_parity(fields: &[(String, MVal)]) -> bool {
+    fields.len() % 2 == 0
+}
+
 /// Does the value the adapter hands to the engine carry the model's numeric value and signedness?
 fn same_value(model: &MVal, got: &Value<'_>) -> bool {
     match (model, got) {
@@ -193,6 +197,62 @@ fn typed_verdicts(rule: &Rule, doc: &MVal, allow_sets: bool) -> Vec<(String, Res
             })
             .collect::<Option<Vec<String>>>()
             .map(Some),
+        _ => None,
+    });
+    typed!("HashMap<String,Vec<f64>>", Vec<f64>, |v: &MVal| match v {
+        MVal::Arr(a) => a
+            .iter()
+            .map(|x| match x {
+                MVal::Float(f) => Some(f.0),
+                _ => None,
+            })
+            .collect(),
+        _ => None,
+    });
+    typed!("HashMap<String,Vec<bool>>", Vec<bool>, |v: &MVal| match v {
+        MVal::Arr(a) => a
+            .iter()
+            .map(|x| match x {
+                MVal::Bool(b) => Some(*b),
+                _ => None,
+            })
+            .collect(),
+        _ => None,
+    });
+    typed!("HashMap<String,Vec<Vec<String>>>", Vec<Vec<String>>, |v: &MVal| match v {
+        MVal::Arr(a) => a
+            .iter()
+            .map(|x| match x {
+                MVal::Arr(inner) => inner
+                    .iter()
+                    .map(|y| match y {
+                        MVal::Str(s) => Some(s.clone()),
+                        _ => None,
+                    })
+                    .collect::<Option<Vec<String>>>(),
+                _ => None,
+            })
+            .collect(),
+        _ => None,
+    });
+    typed!("HashMap<String,Option<bool>>", Option<bool>, |v: &MVal| match v {
+        MVal::Bool(b) => Some(Some(*b)),
+        MVal::Null => Some(None),
+        _ => None,
+    });
+    typed!("HashMap<String,Option<f64>>", Option<f64>, |v: &MVal| match v {
+        MVal::Float(f) => Some(Some(f.0)),
+        MVal::Null => Some(None),
+        _ => None,
+    });
+    typed!("HashMap<String,Option<u64>>", Option<u64>, |v: &MVal| match v {
+        MVal::UInt(u) => Some(Some(*u)),
+        MVal::Null => Some(None),
+        _ => None,
+    });
+    typed!("HashMap<String,Option<Option<String>>>", Option<Option<String>>, |v: &MVal| match v {
+        MVal::Str(s) => Some(Some(Some(s.clone()))),
+        MVal::Null => Some(if k_parity(fields) { None } else { Some(None) }),
         _ => None,
     });
     typed!("HashMap<String,Vec<Option<i64>>>", Vec<Option<i64>>, |v: &MVal| match v {
